@@ -64,6 +64,9 @@ fn shape_set(v: usize, k: i64) -> Vec<SShape> {
             s(0, 0, SGeom::Rect((30, 105), (-10, 125)), None),
             s(1, 0, SGeom::Rect((-30, -5), (-70, -45)), Some("urll")),
             s(1, 1, SGeom::Rect((200, 0), (200, 40)), None),
+            // a polygon that repeats its first vertex at the end (explicitly closed), and a path returning to its start
+            s(0, 1, SGeom::Poly(vec![(300, 0), (310, 0), (310, 10), (300, 10), (300, 0)]), Some("closed")),
+            s(1, 0, SGeom::Path(vec![(400, 0), (450, 0), (450, 50), (400, 0)], 2), None),
         ],
     }
 }
@@ -92,17 +95,20 @@ fn gen(four: bool, c: &mut Chooser) -> Case {
     for i in 0..n {
         let has_out = edges.iter().any(|e| e.0 == i);
         // views: the last cell never instantiates anything, so it may be abstract-only
-        let views = if i == n - 1 { c.free(3, "leaf-views") } else { c.cost(2, "views") };
+        let views = if i == n - 1 { c.free(4, "leaf-views") } else { c.cost(2, "views") };
         let (has_layout, has_abs) = match views {
             0 => (true, false),
             1 => (true, true),
-            _ => (false, true),
+            2 => (false, true),
+            // a placeholder: a cell with a name and no view at all (it can still be instantiated)
+            _ => (false, false),
         };
         debug_assert!(has_layout || !has_out);
         tags.push(match (has_layout, has_abs) {
             (true, false) => "views:layout",
             (true, true) => "views:layout+abstract",
-            _ => "views:abstract",
+            (false, true) => "views:abstract",
+            _ => "views:none",
         });
         let mut cell = SCell { name: CELL_NAMES[i].into(), layout: None, abs: None };
         if has_layout {
@@ -519,7 +525,7 @@ impl CaseDriver for C14 {
         require_tags(
             stats,
             &[
-                "cells:1", "cells:2", "cells:3", "views:layout", "views:layout+abstract", "views:abstract", "dag:shared-dependency", "dag:chain", "order:not-dependencies-first-or-last", "shapes:interleaved-all-kinds", "shapes:none", "shapes:one-layer-purpose",
+                "cells:1", "cells:2", "cells:3", "views:layout", "views:layout+abstract", "views:abstract", "views:none", "dag:shared-dependency", "dag:chain", "order:not-dependencies-first-or-last", "shapes:interleaved-all-kinds", "shapes:none", "shapes:one-layer-purpose",
                 "shapes:cw-polygon+negative-rect", "shapes:rects-by-every-corner-pair", "annotations:0", "annotations:2", "ports:0", "ports:2-second-on-2-layers", "blockages:0", "blockages:2-layers", "inst:angle-Some(0)+second-placement",
             ],
         )?;
